@@ -57,6 +57,80 @@ def run_solver(name, cmd, path, timeout):
     return 'error', (out + '\n' + p.stderr)[:2000], time.time() - t0
 
 
+_sym_cache = {}
+
+
+def symbols(e):
+    """names of uninterpreted constants/functions occurring in e"""
+    key = e.get_id()
+    r = _sym_cache.get(key)
+    if r is not None:
+        return r
+    acc = set()
+    seen = set()
+    todo = [e]
+    while todo:
+        x = todo.pop()
+        i = x.get_id()
+        if i in seen:
+            continue
+        seen.add(i)
+        if z3.is_quantifier(x):
+            todo.append(x.body())
+            continue
+        if z3.is_app(x):
+            d = x.decl()
+            if d.kind() == z3.Z3_OP_UNINTERPRETED:
+                acc.add(d.name())
+            todo.extend(x.children())
+    _sym_cache[key] = acc
+    return acc
+
+
+def has_quantifier(e):
+    todo = [e]
+    seen = set()
+    while todo:
+        x = todo.pop()
+        if x.get_id() in seen:
+            continue
+        seen.add(x.get_id())
+        if z3.is_quantifier(x):
+            return True
+        if z3.is_app(x):
+            todo.extend(x.children())
+    return False
+
+
+def slices(ob, rounds=(1, 2)):
+    """Relevance slices of the hypotheses (sound: a subset of the assumptions).  Quantifier-free hypotheses
+    (path conditions, definitions) are always kept; a quantified one is kept when it shares a symbol that is not
+    ubiquitous with the goal (round 1) or with something already kept (round 2)."""
+    hs = [(h, symbols(h), has_quantifier(h)) for h in ob.pc]
+    cnt = {}
+    for h, sy, q in hs:
+        for x in sy:
+            cnt[x] = cnt.get(x, 0) + 1
+    ubiq = {x for x, c in cnt.items() if c > 0.3 * max(len(hs), 1) and len(hs) > 10}
+    R = set(symbols(ob.goal)) - ubiq
+    keep = set(i for i, (h, sy, q) in enumerate(hs) if not q)
+    for i in keep:
+        R |= (hs[i][1] - ubiq) if False else set()
+    out = []
+    for rd in range(max(rounds)):
+        newR = set(R)
+        for i, (h, sy, q) in enumerate(hs):
+            if i in keep:
+                continue
+            if (sy - ubiq) & R:
+                keep.add(i)
+                newR |= (sy - ubiq)
+        R = newR
+        if (rd + 1) in rounds:
+            out.append([hs[i][0] for i in sorted(keep)])
+    return out
+
+
 class Result:
     def __init__(self, ob):
         self.ob = ob
@@ -68,14 +142,25 @@ class Result:
         self.smt_sha = ''
 
 
-def discharge_one(ob, text, workdir, timeout, second_opinion=False):
+def discharge_one(ob, text, workdir, timeout, second_opinion=False, slice_texts=()):
+    # relevance slices first (fewer hypotheses: faster, and sound); the full query last
+    if ob.expect == 'unsat':
+        for k, stext in enumerate(slice_texts):
+            rs = _discharge_text(ob, stext, workdir, max(5, timeout // 4), False, only_first=True)
+            if rs.verdict == 'discharged':
+                rs.solver = '%s (relevance slice %d)' % (rs.solver, k + 1)
+                return rs
+    return _discharge_text(ob, text, workdir, timeout, second_opinion)
+
+
+def _discharge_text(ob, text, workdir, timeout, second_opinion=False, only_first=False):
     r = Result(ob)
     r.smt_sha = hashlib.sha256(text.encode()).hexdigest()[:16]
     path = os.path.join(workdir, '%s_%d.smt2' % (r.smt_sha, next(_file_ctr)))
     with open(path, 'w') as fh:
         fh.write(text)
     answers = {}
-    solvers = SOLVERS
+    solvers = SOLVERS[:1] if only_first else SOLVERS
     if ob.expect == 'sat':
         # vacuity canaries: satisfiability under quantified axioms is rarely decidable; short budget, one solver
         solvers = SOLVERS[:1]
@@ -133,11 +218,19 @@ def discharge(obligations, axioms, timeout=10, jobs=None, second_opinion=False, 
     if own:
         workdir = tempfile.mkdtemp(prefix='pyvc_smt_')
     texts = []
+    stexts = []
+    use_slices = not os.environ.get('VERIF_NO_SLICES')
     for ob in obligations:
         texts.append(to_smt2(ob.formula(axioms), want_model=True))
+        sl = []
+        if use_slices and ob.expect == 'unsat' and len(ob.pc) > 40:
+            for hyps in slices(ob):
+                if len(hyps) < len(ob.pc):
+                    sl.append(to_smt2(list(axioms) + hyps + [z3.Not(ob.goal)]))
+        stexts.append(sl)
     with ThreadPoolExecutor(max_workers=jobs) as ex:
-        futs = [ex.submit(discharge_one, ob, tx, workdir, timeout, second_opinion)
-                for ob, tx in zip(obligations, texts)]
+        futs = [ex.submit(discharge_one, ob, tx, workdir, timeout, second_opinion, st_)
+                for ob, tx, st_ in zip(obligations, texts, stexts)]
         results = [f.result() for f in futs]
     if own:
         try:
